@@ -21,13 +21,13 @@ CHECKS = {
    note='Process stop inside the local and git backends is an error return at a hook failpoint (no backend code runs after it); kills inside a running git child are not exercised. One recorded known finding (git with shared remote, stop between commit and push).'),
  'C09': dict(level='exploration', design='6 C09', technique='deterministic simulation: 2-4 real CloudServer clients over a gated in-memory object store, every request and list page a scheduling point; chain-specific linearizability oracle over the invoke/return history and the log of compare-and-swaps on latest',
    text='Seeded interleavings at single get/put/delete/list-page/compare-and-swap granularity with seeded listing order and page sizes; oracles: one accepted child per parent, accepted on the then-latest, every accepted version on the final chain, reads return only chain versions under the requested parent with the submitted bytes and never before commit, no-such-version and rejections are consistent with what was latest during the call, a fresh client walks the full chain.',
-   note='Hook: taskchampion::server::verif (in-memory Service behind a Gate). The object store is linearizable per request; cloud/aws.rs and cloud/gcp.rs adapters never run. Cleanup is disabled here (C10).'),
+   note='Hook: taskchampion::server::verif (in-memory Service behind a Gate). The object store is linearizable per request; cloud/aws.rs and cloud/gcp.rs adapters never run. No explicit cleanup and no passage of time here (C10); in a quarter of the runs the server\'s own dice start the cleanup that follows an accepted version, which may then only remove leftovers and superseded snapshots.'),
  'C10': dict(level='exploration', design='6 C10', technique='deterministic simulation with fault injection: as C09 plus cleanup runs (explicit and dice-driven) interleaved at request granularity, simulated clock jumps across the retention age, cleanups stopped after any request; store-usability predicate read independently from the object map plus a fresh client',
    text='After every ended (completed or stopped) cleanup and at the end, the object map must still let every client work: the walk back from latest reaches the first version or a version covered by a retained snapshot, snapshots the cleanup kept are usable starting points, and a fresh client gets from snapshot/nil to latest.',
    note='Time jumps only while no client operation is in flight (no request spans 180 days); a snapshot is uploaded by the client that just had its version accepted, as Replica::sync does.'),
- 'C17': dict(level='exploration', design='6 C17', technique='deterministic simulation: 2-8 real SqliteStorage handles on one directory, every storage call a scheduling point of the seeded scheduler, real SQLite lock waits issued deliberately (one waiter at a time); linearizability audit of the stored log against a sequential model in commit order',
+ 'C17': dict(level='exploration', design='6 C17', technique='deterministic simulation: 2-8 real SqliteStorage handles (threads of one process, or one process each) on one directory, every storage call a scheduling point of the seeded scheduler, real SQLite lock waits issued deliberately (one waiter at a time); linearizability audit of the stored log against a sequential model in commit order',
    text='Each handle has its own connection and actor thread; the seeded scheduler interleaves the handles at single-storage-call granularity and makes BEGIN IMMEDIATE really block behind another handle\'s transaction. Afterwards a fresh handle must find an operation log equal to the successful commits concatenated in the order their commits returned, tasks equal to their one-at-a-time application (undo included), and a duplicate-free working set.',
-   note='Handles are futures in one process (separate connections and threads); separate OS processes are not exercised. Who waits for the lock is the simulator\'s choice; two simultaneous waiters are never created because SQLite\'s real-time back-off would choose between them.'),
+   note='In three quarters of the runs the handles are futures in one process (separate connections and threads); in one quarter every handle is an OS process of its own (tcsim handle17) stepped by the same scheduler over pipes, sharing only the database files and their locks. Who waits for the lock is the simulator\'s choice; two simultaneous waiters are never created because SQLite\'s real-time back-off would choose between them.'),
  'C06': dict(level='fault_enumeration', design='6 C06', technique='deterministic simulation with fault injection over the real SqliteStorage: every storage call of an action interrupted in-process (error / dropped caller), plus victim processes really SIGKILLed at storage-call and write-syscall indices; fresh-handle reopen compared with the recorded transaction-boundary states',
    text='For each sampled action (commit, undo, rebuild, sync, expire) on a SQLite replica the state after each of its transaction commits is recorded through fresh handles; the action is then re-executed from a copy of the directory with an interruption at every storage call (error returned; caller dropped) and, in victim processes, killed by SIGKILL at storage-call indices, right after returning, and at write-class system-call indices inside SQLite\'s commit. A freshly opened store must show exactly the state after the commits that had returned (for write-syscall kills: that or the next boundary), never a partial state, and must open at all.',
    note='Crash model: process stop with completed system calls surviving (what the property states); power loss / lost un-fsynced writes not modelled. Write-class syscalls are intercepted by symbol interposition in the harness binary.'),
@@ -45,7 +45,7 @@ CHECKS = {
    note='Scenarios never re-create a task id after the initial creation.'),
  'C04': dict(level='fault_enumeration', design='6 C04', technique='deterministic simulation with fault injection: per sampled sync, every storage call and server request is interrupted with each of {error before effect, effect then error, process stop}, then resync and compare with the uninterrupted outcome',
    text='For seeded histories the sync under test is first run fault-free to enumerate its interruption points, then re-executed from a copy of the same durable state once per point and fault kind; after each interruption the replica invariant must hold, repeating the sync must give exactly the replica and chain state of the uninterrupted sync with nothing left unsynchronized, and all replicas must then converge with every committed update accounted for once. Exhaustive over the interruption points of each sampled sync; histories are sampled.',
-   note='Process stop = the replica future is dropped and only the committed in-memory store survives (SQLite kills are C06). Reference server as in C01.'),
+   note='Process stop = the replica future is dropped and only the committed in-memory store survives (SQLite kills are C06). Reference server as in C01. Each server request is additionally failed (before / after effect) while another replica has synchronized since the previous request of the sync under test (fault plus race).'),
  'C05': dict(level='fault_enumeration', design='6 C05', technique='deterministic simulation with fault injection: operation batches (valid or not) checked against the documented operation model after every commit, plus a sweep of every storage call of a commit with error/stop faults for all-or-nothing',
    text='Arbitrary batches (create of existing, update/delete of missing tasks, delete-then-create, removals, undo points) on states produced by seeded histories; after each commit the unsynchronized list must be the old list plus the batch in order and the tasks must equal the reference model applied to base state + unsynchronized operations; a further commit is interrupted at every storage call with each fault kind and the store must be exactly the before- or after-state.',
    note='In-memory storage in this check; SqliteStorage gets the same treatment in C06/C16. Working-set additions are checked by C15.'),
